@@ -2,6 +2,7 @@ package drive
 
 import (
 	"context"
+	"errors"
 	"crypto/rand"
 	"crypto/rsa"
 	"crypto/sha256"
@@ -108,6 +109,7 @@ func (n *names) rewrite(s string) string {
 
 // hist is one history: a provider over a fresh recording store inside a synctest bubble.
 type hist struct {
+	pending  map[int]string // fault plan for the next endpoint operation (op "fault")
 	store    *recStore
 	cfg      *fosite.Config
 	provider fosite.OAuth2Provider
@@ -173,10 +175,16 @@ func (h *hist) applyCfg(fs []string) {
 		}
 		cfg.IsPushedAuthorizeEnforced = kvGet(fs, "enforcePAR") == "1"
 		h.store.devMark = kvGet(fs, "devMark") == "1"
+		h.store.txMode = kvGet(fs, "tx") == "1"
 	}
 	cfg.DeviceVerificationURL = "https://as.example/device"
 	h.cfg = cfg
-	h.provider = compose.ComposeAllEnabled(cfg, h.store, serverKey())
+	if h.store.txMode {
+		// the same store, implementing storage.Transactional with real rollback
+		h.provider = compose.ComposeAllEnabled(cfg, txStore{h.store}, serverKey())
+	} else {
+		h.provider = compose.ComposeAllEnabled(cfg, h.store, serverKey())
+	}
 }
 
 func (h *hist) newSession(sub string) *openid.DefaultSession {
@@ -272,6 +280,15 @@ func (h *hist) exec(line string) string {
 	ctx := context.Background()
 	h.store.calls = nil
 	h.store.handed = nil
+	// storage-call indices are per operation; a pending fault plan applies to this operation only
+	h.store.idx = 0
+	h.store.snap = nil
+	if f[0] == "fault" {
+		h.pending = parsePlan(f[1])
+		return "ok ||  || " + h.store.dump() + " || taint="
+	}
+	h.store.plan, h.pending = h.pending, nil
+	defer func() { h.store.plan = nil }()
 	out := "bad-op"
 	switch f[0] {
 	case "cfg":
@@ -447,6 +464,34 @@ func (h *hist) exec(line string) string {
 		}
 		r := httptest.NewRequest("GET", "https://as.example/auth?"+q.Encode(), nil)
 		out = h.finishAuthorize(ctx, r, decList(f[4]), decList(f[5]), f[6])
+	case "introspectHTTP":
+		// introspectHTTP callerKind callerArg cred token hint scopes
+		form := url.Values{"token": {h.present(f[4])}}
+		setIf(form, "token_type_hint", f[5])
+		setIf(form, "scope", strings.Join(decList(f[6]), " "))
+		r := httptest.NewRequest("POST", "https://as.example/introspect", strings.NewReader(form.Encode()))
+		r.Header.Set("Content-Type", "application/x-www-form-urlencoded")
+		switch f[1] {
+		case "bearer":
+			r.Header.Set("Authorization", "Bearer "+h.present(f[2]))
+		case "basic":
+			secret := badSecret
+			if f[3] == "1" {
+				secret = goodSecret
+			}
+			r.SetBasicAuth(url.QueryEscape(f[2]), url.QueryEscape(secret))
+		}
+		resp, err := h.provider.NewIntrospectionRequest(ctx, r, &openid.DefaultSession{})
+		switch {
+		case err != nil && errors.Is(err, fosite.ErrInactiveToken):
+			out = "inactive " + errWire(fosite.ErrInactiveToken)
+		case err != nil:
+			out = "err " + errWire(err)
+		case !resp.IsActive():
+			out = "inactive-without-error"
+		default:
+			out = fmt.Sprintf("active use=%s %s", resp.GetTokenUse(), h.store.renderReq(resp.GetAccessRequester()))
+		}
 	case "introspect":
 		tu, ar, err := h.provider.IntrospectToken(ctx, h.present(f[1]), fosite.TokenUse(f[2]), &openid.DefaultSession{}, decList(f[3])...)
 		if err != nil {
